@@ -13,11 +13,11 @@ import (
 type Expr interface{ String() string }
 
 type (
-	Ident  struct{ Name string }
-	IntLit struct{ Val string }
+	Ident   struct{ Name string }
+	IntLit  struct{ Val string }
 	BoolLit struct{ Val bool }
-	NilLit struct{}
-	Binary struct {
+	NilLit  struct{}
+	Binary  struct {
 		Op   string
 		L, R Expr
 	}
@@ -37,6 +37,7 @@ type (
 	Quant struct {
 		Forall bool
 		Vars   []string
+		Sorts  []string // parallel to Vars; "" = Int
 		Body   Expr
 	}
 	Old  struct{ X Expr }
@@ -65,8 +66,10 @@ func (e Quant) String() string {
 	}
 	return "(" + q + " " + strings.Join(e.Vars, ", ") + " :: " + e.Body.String() + ")"
 }
-func (e Old) String() string  { return "old(" + e.X.String() + ")" }
-func (e Cond) String() string { return "(" + e.C.String() + " ? " + e.A.String() + " : " + e.B.String() + ")" }
+func (e Old) String() string { return "old(" + e.X.String() + ")" }
+func (e Cond) String() string {
+	return "(" + e.C.String() + " ? " + e.A.String() + " : " + e.B.String() + ")"
+}
 
 type Clause struct {
 	Label string
@@ -80,22 +83,54 @@ type Loop struct {
 	Decreases  []Clause
 }
 
-type Contract struct {
-	Kind     string // "func" or "iface"
-	Name     string // e.g. "(*FileWriter).Write", "floodFill", "recordio.WriterI.Write"
-	Pkg      string // package path of the file it was found in
+// CallAssert is an intermediate assertion tied to the N-th call (N<0: every call) of a callee inside the function.
+type CallAssert struct {
+	N      int
+	Callee string // suffix match against the callee's key / method name
+	After  bool   // evaluated after the call returned (results visible as c0, c1, ...)
+	Cl     Clause
+}
+
+// Lemma is a pure proof goal over spec functions: premises ==> goal.
+type Lemma struct {
+	Name     string
+	Pkg      string
 	Props    []string
-	Mode     string
-	Bytes    string
-	Requires []Clause
-	Ensures  []Clause
-	Modifies []string
-	HasMod   bool
-	Panics   string
-	Loops    map[int]*Loop
-	Trusted  bool
-	Line     int
+	Vars     [][2]string
+	Assumes  []Clause
+	Shows    []Clause
+	MustFail bool // sanity lemma: expected to be refutable (sat)
 	File     string
+	Line     int
+}
+
+type Contract struct {
+	Kind        string // "func" or "iface"
+	Name        string // e.g. "(*FileWriter).Write", "floodFill", "recordio.WriterI.Write"
+	Pkg         string // package path of the file it was found in
+	Props       []string
+	Mode        string
+	Bytes       string
+	Requires    []Clause
+	Ensures     []Clause
+	Exits       []Clause // asserted at every return like ensures, may mention locals, never exported to callers
+	Modifies    []string
+	HasMod      bool
+	Panics      string
+	Loops       map[int]*Loop
+	Trusted     bool
+	Line        int
+	File        string
+	CallAsserts []CallAssert
+	Implements  []string // iface contract keys whose clauses this function must satisfy
+	Replay      string   // replay driver name
+	Safety      string   // "on" / "off" / ""
+	Pure        bool     // declared to have no heap effect at all (stronger than modifies nothing: also for loops' havoc)
+	Fresh       []string // results that are freshly allocated objects when non-nil
+	WrapOK      bool     // integer arithmetic in this function wraps by design (hash-like code): no overflow obligations
+	FuncValue   bool     // contract of a function value (fnvalue): parameters only, no receiver
+	Axioms      []Clause // contracts-ext only: assumed facts
+	Conformance string   // name of the executable conformance check of a trusted contract
 }
 
 type Spec struct {
@@ -103,30 +138,37 @@ type Spec struct {
 	Params [][2]string // name, sort
 	Ret    string
 	Body   Expr
+	Ghost  bool // mutable ghost state: heap indexed by the parameters
 }
 
 type File struct {
 	Contracts []*Contract
 	Specs     []*Spec
+	Lemmas    []*Lemma
+	Axioms    []Clause
 	Errors    []error
 }
 
 // ---------- line level parser
 
-var clauseKW = map[string]bool{"props": true, "mode": true, "bytes": true, "requires": true, "ensures": true, "modifies": true,
-	"panics": true, "loop": true, "invariant": true, "decreases": true, "trusted": true, "wrap-ok": true}
+var clauseKW = map[string]bool{"fresh": true, "exit": true, "props": true, "mode": true, "bytes": true, "requires": true, "ensures": true, "modifies": true,
+	"panics": true, "loop": true, "invariant": true, "decreases": true, "trusted": true, "wrap-ok": true,
+	"call": true, "aftercall": true, "implements": true, "replay": true, "safety": true, "pure": true, "conformance": true,
+	"assume": true, "show": true, "vars": true, "mustfail": true}
 
 // ParseComments takes the text of all //@ lines of one file (with line numbers) and builds contracts.
 func ParseComments(pkg, file string, lines []string, lineNos []int) *File {
 	f := &File{}
 	var cur *Contract
+	var curLemma *Lemma
 	var curLoop *Loop
 	var pendKind string
 	var pendSrc []string
 	var pendLine int
+	var pendCA *CallAssert
 	flush := func() {
-		if pendKind == "" || cur == nil {
-			pendKind, pendSrc = "", nil
+		if pendKind == "" || (cur == nil && curLemma == nil && pendKind != "axiom") {
+			pendKind, pendSrc, pendCA = "", nil, nil
 			return
 		}
 		src := strings.TrimSpace(strings.Join(pendSrc, " "))
@@ -147,6 +189,8 @@ func ParseComments(pkg, file string, lines []string, lineNos []int) *File {
 				cur.Requires = append(cur.Requires, cl)
 			case "ensures":
 				cur.Ensures = append(cur.Ensures, cl)
+			case "exit":
+				cur.Exits = append(cur.Exits, cl)
 			case "invariant":
 				if curLoop != nil {
 					curLoop.Invariants = append(curLoop.Invariants, cl)
@@ -155,9 +199,22 @@ func ParseComments(pkg, file string, lines []string, lineNos []int) *File {
 				if curLoop != nil {
 					curLoop.Decreases = append(curLoop.Decreases, cl)
 				}
+			case "call", "aftercall":
+				pendCA.Cl = cl
+				cur.CallAsserts = append(cur.CallAsserts, *pendCA)
+			case "assume":
+				if curLemma != nil {
+					curLemma.Assumes = append(curLemma.Assumes, cl)
+				}
+			case "show":
+				if curLemma != nil {
+					curLemma.Shows = append(curLemma.Shows, cl)
+				}
+			case "axiom":
+				f.Axioms = append(f.Axioms, cl)
 			}
 		}
-		pendKind, pendSrc = "", nil
+		pendKind, pendSrc, pendCA = "", nil, nil
 	}
 	for i, raw := range lines {
 		ln := lineNos[i]
@@ -173,20 +230,51 @@ func ParseComments(pkg, file string, lines []string, lineNos []int) *File {
 			word, rest = t[:j], strings.TrimSpace(t[j:])
 		}
 		switch {
-		case word == "func" || word == "iface":
+		case word == "func" || word == "iface" || word == "fnvalue":
 			flush()
 			cur = &Contract{Kind: word, Name: rest, Pkg: pkg, Loops: map[int]*Loop{}, Line: ln, File: file}
-			curLoop = nil
+			if word == "fnvalue" {
+				cur.Kind, cur.FuncValue = "iface", true
+			}
+			curLoop, curLemma = nil, nil
 			f.Contracts = append(f.Contracts, cur)
-		case word == "spec":
+		case word == "lemma":
 			flush()
-			sp, err := parseSpec(rest)
+			cur, curLoop = nil, nil
+			curLemma = &Lemma{Name: strings.TrimSuffix(rest, ":"), Pkg: pkg, File: file, Line: ln}
+			f.Lemmas = append(f.Lemmas, curLemma)
+		case word == "axiom":
+			flush()
+			pendKind, pendSrc, pendLine = "axiom", []string{rest}, ln
+		case word == "spec" || word == "ghost":
+			flush()
+			sp, err := parseSpec(rest, word == "ghost")
 			if err != nil {
 				f.Errors = append(f.Errors, fmt.Errorf("%s:%d: %v", file, ln, err))
 			} else {
 				f.Specs = append(f.Specs, sp)
 			}
-			cur = nil
+		case curLemma != nil && clauseKW[word]:
+			flush()
+			switch word {
+			case "props":
+				curLemma.Props = append(curLemma.Props, strings.Fields(rest)...)
+			case "vars":
+				for _, p := range strings.Split(rest, ",") {
+					fs := strings.Fields(p)
+					if len(fs) == 2 {
+						curLemma.Vars = append(curLemma.Vars, [2]string{fs[0], fs[1]})
+					} else if len(fs) == 1 {
+						curLemma.Vars = append(curLemma.Vars, [2]string{fs[0], "Int"})
+					}
+				}
+			case "mustfail":
+				curLemma.MustFail = true
+			case "assume", "show":
+				pendKind, pendSrc, pendLine = word, []string{rest}, ln
+			default:
+				f.Errors = append(f.Errors, fmt.Errorf("%s:%d: clause %q not allowed in a lemma", file, ln, word))
+			}
 		case cur != nil && clauseKW[word]:
 			flush()
 			switch word {
@@ -198,12 +286,25 @@ func ParseComments(pkg, file string, lines []string, lineNos []int) *File {
 				cur.Bytes = rest
 			case "trusted":
 				cur.Trusted = true
+			case "pure":
+				cur.Pure = true
+				cur.HasMod = true
+			case "conformance":
+				cur.Conformance = rest
+			case "fresh":
+				cur.Fresh = append(cur.Fresh, strings.Fields(strings.ReplaceAll(rest, ",", " "))...)
 			case "panics":
 				cur.Panics = rest
+			case "replay":
+				cur.Replay = rest
+			case "safety":
+				cur.Safety = rest
+			case "implements":
+				cur.Implements = append(cur.Implements, strings.Fields(rest)...)
 			case "modifies":
 				cur.HasMod = true
 				if rest != "nothing" {
-					for _, m := range strings.Split(rest, ",") {
+					for _, m := range splitTop(rest) {
 						cur.Modifies = append(cur.Modifies, strings.TrimSpace(m))
 					}
 				}
@@ -215,6 +316,32 @@ func ParseComments(pkg, file string, lines []string, lineNos []int) *File {
 				}
 				curLoop = &Loop{}
 				cur.Loops[n] = curLoop
+			case "call", "aftercall": // call N of callee: assert E
+				fs := strings.SplitN(rest, ":", 2)
+				hd := strings.Fields(fs[0])
+				if len(fs) != 2 || len(hd) != 3 || hd[1] != "of" {
+					f.Errors = append(f.Errors, fmt.Errorf("%s:%d: bad call clause %q", file, ln, rest))
+					continue
+				}
+				n := -1
+				if hd[0] != "*" {
+					v, err := strconv.Atoi(hd[0])
+					if err != nil {
+						f.Errors = append(f.Errors, fmt.Errorf("%s:%d: bad call ordinal %q", file, ln, hd[0]))
+						continue
+					}
+					n = v
+				}
+				body := strings.TrimSpace(fs[1])
+				body = strings.TrimSpace(strings.TrimPrefix(body, "assert"))
+				pendCA = &CallAssert{N: n, Callee: hd[2], After: word == "aftercall"}
+				pendKind, pendSrc, pendLine = word, []string{body}, ln
+			case "wrap-ok", "assume", "show", "vars", "mustfail":
+				if word == "wrap-ok" {
+					cur.WrapOK = true
+				} else {
+					f.Errors = append(f.Errors, fmt.Errorf("%s:%d: clause %q not allowed in a function contract", file, ln, word))
+				}
 			default: // requires ensures invariant decreases
 				pendKind, pendSrc, pendLine = word, []string{rest}, ln
 			}
@@ -228,8 +355,28 @@ func ParseComments(pkg, file string, lines []string, lineNos []int) *File {
 	return f
 }
 
-func parseSpec(rest string) (*Spec, error) {
-	// spec func name(a Sort, b Sort) Sort [= expr]
+// splitTop splits at commas that are not inside parentheses or brackets.
+func splitTop(s string) []string {
+	var out []string
+	depth, last := 0, 0
+	for i, c := range s {
+		switch c {
+		case '(', '[':
+			depth++
+		case ')', ']':
+			depth--
+		case ',':
+			if depth == 0 {
+				out = append(out, s[last:i])
+				last = i + 1
+			}
+		}
+	}
+	return append(out, s[last:])
+}
+
+func parseSpec(rest string, ghost bool) (*Spec, error) {
+	// spec func name(a Sort, b Sort) Sort [= expr]      |     ghost name(a Sort, ...) Sort
 	rest = strings.TrimSpace(strings.TrimPrefix(rest, "func"))
 	op := strings.Index(rest, "(")
 	cp := strings.Index(rest, ")")
@@ -253,6 +400,12 @@ func parseSpec(rest string) (*Spec, error) {
 		sp.Body = e
 	} else {
 		sp.Ret = tail
+	}
+	if ghost {
+		sp.Ghost = true
+	} else if strings.HasPrefix(sp.Ret, "ghost ") {
+		sp.Ghost = true
+		sp.Ret = strings.TrimSpace(strings.TrimPrefix(sp.Ret, "ghost"))
 	}
 	return sp, nil
 }
@@ -444,15 +597,25 @@ func (p *parser) primary() (Expr, error) {
 		case "nil":
 			return NilLit{}, nil
 		case "forall", "exists":
-			var vars []string
+			var vars, sorts []string
 			for {
 				v := p.next()
 				if v.kind != "id" {
 					return nil, fmt.Errorf("expected bound variable, found %q", v.s)
 				}
 				vars = append(vars, v.s)
+				srt := ""
+				if p.peek().kind == "id" { // optional sort
+					srt = p.next().s
+				}
+				sorts = append(sorts, srt)
 				if !p.accept(",") {
 					break
+				}
+			}
+			for i := len(sorts) - 1; i > 0; i-- { // "a, b Bytes": a sort applies to the preceding unsorted names
+				if sorts[i-1] == "" {
+					sorts[i-1] = sorts[i]
 				}
 			}
 			if err := p.expect("::"); err != nil {
@@ -462,7 +625,7 @@ func (p *parser) primary() (Expr, error) {
 			if err != nil {
 				return nil, err
 			}
-			return Quant{t.s == "forall", vars, body}, nil
+			return Quant{t.s == "forall", vars, sorts, body}, nil
 		}
 		if p.accept("(") {
 			var args []Expr
